@@ -1,6 +1,7 @@
 """C14 -- an uncertainty is never negative, whatever path created or changed it."""
 import json
 import math
+import random
 import os
 import time
 import warnings
@@ -201,7 +202,11 @@ def make_quantity(kind, rng):
 def observe(m):
     with warnings.catch_warnings():
         warnings.simplefilter("ignore")
-        return {"cls": type(m).__name__, "value": float(m.value), "error": float(m.error)}
+        try:
+            return {"cls": type(m).__name__, "value": float(m.value), "error": float(m.error)}
+        except Exception as ex:  # the quantity can no longer be read: recorded, judged by the oracle
+            return {"cls": type(m).__name__, "value": None, "error": None,
+                    "unreadable": "{}: {}".format(type(ex).__name__, str(ex)[:120])}
 
 
 def stats_of(m):
@@ -266,7 +271,9 @@ def apply_op(m, op):
 
 def run_quantity_history(kind, seed_rng, ops=None, n=None):
     import random
-    sub = random.Random(seed_rng.randrange(2 ** 40)) if ops is None else None
+    sub = random.Random(seed_rng.randrange(2 ** 40))      # always drawn: a replay with given ops sees the same quantity
+    import numpy as np
+    np.random.seed(seed_rng.randrange(2 ** 31))        # Monte Carlo draws of this history are reproducible from the seed
     m = make_quantity(kind, seed_rng)
     start = observe(m)
     st = stats_of(m)
@@ -323,7 +330,9 @@ def correspondence(ctx):
     hs = []
     for _ in range(ctx.n(150, 2500)):
         kind = rng.choice(["single", "repeated", "derived", "derived-mc"])
-        hs.append(run_quantity_history(kind, rng, n=rng.randrange(3, 14)))
+        seed = rng.randrange(2 ** 40)
+        hs.append(run_quantity_history(kind, random.Random(seed), n=rng.randrange(3, 14)))
+        hs[-1]["seed"] = seed
     res.evaluations = len(cc) + len(ac) + len(hs)
     res.traces = len(hs)
     for c in cc:
@@ -362,6 +371,11 @@ def correspondence(ctx):
             coq_list([qlit(x) for x in c["errs"]])) for c in chunk])
         shards.append(HEADER + "Definition cases := {}.\nEval vm_compute in (bad_indices check_array cases).\n".format(body))
         index.append(("array", chunk))
+    for h in hs:
+        if any(t["after"].get("unreadable") for t in h["trace"]):
+            res.disagreements.append({"name": "implementation: a setter left a quantity that cannot be read", "kind": "history",
+                                      "case": {"kind": h["kind"], "seed": h["seed"], "ops": h["ops"], "start": h["start"]}})
+    hs = [h for h in hs if not any(t["after"].get("unreadable") for t in h["trace"])]
     for k in range(0, len(hs), 60):
         chunk = hs[k:k + 60]
         I = Interner()
@@ -379,7 +393,7 @@ def correspondence(ctx):
             name = {"ctor": "Model.Uncert.construct vs Measurement(v, e)",
                     "array": "Model.Uncert.error_array vs MeasurementArray/XYDataSet/_get_error_array_helper",
                     "history": "Model.Uncert.step vs value/error/relative_error setters, use_* selectors, custom pair"}[kind]
-            case = c if kind != "history" else {"kind": c["kind"], "ops": c["ops"], "start": c["start"]}
+            case = c if kind != "history" else {"kind": c["kind"], "seed": c.get("seed"), "ops": c["ops"], "start": c["start"]}
             res.disagreements.append({"name": name, "kind": kind, "case": case})
     CL.reset_world()
     return res
@@ -392,6 +406,9 @@ def ok_number(x):
 
 def oracle_history(h):
     for i, t in enumerate(h["trace"]):
+        if t["after"].get("unreadable"):
+            return "step {} {} ({}) left a quantity whose value/uncertainty cannot be read: {}".format(
+                i, t["op"], t["out"], t["after"]["unreadable"])
         if not ok_number(t["after"]["error"]):
             return "step {} {}: the uncertainty is {}".format(i, t["op"], t["after"]["error"])
         if t["out"] != "Accepted" and t["after"] != t["before"]:
